@@ -57,13 +57,24 @@ g_frame!(tdes_eee3_frame, TdesEee3, 8, generic::always, stubs: [(crate::utils::f
 //@ harness name=tdes_eee2_frame prop=C15,C20 tier=quick bits=2112 stub=1 desc="encrypt/decrypt on an arbitrary TdesEee2 state: total, instance unchanged (f uninterpreted)"
 g_frame!(tdes_eee2_frame, TdesEee2, 8, generic::always, stubs: [(crate::utils::f, stub_xf)]);
 
-//@ harness name=des_blocks prop=C04,C20 tier=quick bits=1160 stub=1 desc="Des: b2b / multi-block (n symbolic 0..=2, both directions) / single b2b calls equal in-place single-block calls; input and guard blocks untouched; arbitrary state (f uninterpreted)"
-g_blocks!(des_blocks, Des, 8, generic::always, stubs: [(crate::utils::f, stub_xf)]);
-//@ harness name=tdes_ede3_blocks prop=C04,C20 tier=quick bits=3208 stub=1 desc="TdesEde3: b2b / multi-block / single b2b equal in-place single-block calls; arbitrary state (f uninterpreted)"
-g_blocks!(tdes_ede3_blocks, TdesEde3, 8, generic::always, stubs: [(crate::utils::f, stub_xf)]);
-//@ harness name=tdes_ede2_blocks prop=C04,C20 tier=quick bits=2184 stub=1 desc="TdesEde2: b2b / multi-block / single b2b equal in-place single-block calls; arbitrary state (f uninterpreted)"
-g_blocks!(tdes_ede2_blocks, TdesEde2, 8, generic::always, stubs: [(crate::utils::f, stub_xf)]);
-//@ harness name=tdes_eee3_blocks prop=C04,C20 tier=quick bits=3208 stub=1 desc="TdesEee3: b2b / multi-block / single b2b equal in-place single-block calls; arbitrary state (f uninterpreted)"
-g_blocks!(tdes_eee3_blocks, TdesEee3, 8, generic::always, stubs: [(crate::utils::f, stub_xf)]);
-//@ harness name=tdes_eee2_blocks prop=C04,C20 tier=quick bits=2184 stub=1 desc="TdesEee2: b2b / multi-block / single b2b equal in-place single-block calls; arbitrary state (f uninterpreted)"
-g_blocks!(tdes_eee2_blocks, TdesEee2, 8, generic::always, stubs: [(crate::utils::f, stub_xf)]);
+// C04: every block count n = 0, 1, 2 (enumerated), all block contents and all states symbolic; one harness per direction.
+//@ harness name=des_blocks_enc prop=C04,C20 tier=quick bits=1152 stub=1 desc="Des encrypt: multi-block in place / multi-block b2b (n = 0,1,2) / single b2b equal per-block in-place calls; separate input unchanged; blocks >= n and mismatched-length outputs untouched; arbitrary state (f uninterpreted)"
+g_blocks1!(des_blocks_enc, Des, 8, 2, generic::always, enc, stubs: [(crate::utils::f, stub_xf)]);
+//@ harness name=des_blocks_dec prop=C04,C20 tier=quick bits=1152 stub=1 desc="Des decrypt: same as des_blocks_enc"
+g_blocks1!(des_blocks_dec, Des, 8, 2, generic::always, dec, stubs: [(crate::utils::f, stub_xf)]);
+//@ harness name=tdes_ede3_blocks_enc prop=C04,C20 tier=quick bits=3200 stub=1 desc="TdesEde3 encrypt: multi-block / b2b calls equal per-block calls (n = 0,1,2); arbitrary state (f uninterpreted)"
+g_blocks1!(tdes_ede3_blocks_enc, TdesEde3, 8, 2, generic::always, enc, stubs: [(crate::utils::f, stub_xf)]);
+//@ harness name=tdes_ede3_blocks_dec prop=C04,C20 tier=quick bits=3200 stub=1 desc="TdesEde3 decrypt: multi-block / b2b calls equal per-block calls (n = 0,1,2); arbitrary state (f uninterpreted)"
+g_blocks1!(tdes_ede3_blocks_dec, TdesEde3, 8, 2, generic::always, dec, stubs: [(crate::utils::f, stub_xf)]);
+//@ harness name=tdes_ede2_blocks_enc prop=C04,C20 tier=quick bits=2176 stub=1 desc="TdesEde2 encrypt: multi-block / b2b calls equal per-block calls; arbitrary state (f uninterpreted)"
+g_blocks1!(tdes_ede2_blocks_enc, TdesEde2, 8, 2, generic::always, enc, stubs: [(crate::utils::f, stub_xf)]);
+//@ harness name=tdes_ede2_blocks_dec prop=C04,C20 tier=quick bits=2176 stub=1 desc="TdesEde2 decrypt: multi-block / b2b calls equal per-block calls; arbitrary state (f uninterpreted)"
+g_blocks1!(tdes_ede2_blocks_dec, TdesEde2, 8, 2, generic::always, dec, stubs: [(crate::utils::f, stub_xf)]);
+//@ harness name=tdes_eee3_blocks_enc prop=C04,C20 tier=quick bits=3200 stub=1 desc="TdesEee3 encrypt: multi-block / b2b calls equal per-block calls; arbitrary state (f uninterpreted)"
+g_blocks1!(tdes_eee3_blocks_enc, TdesEee3, 8, 2, generic::always, enc, stubs: [(crate::utils::f, stub_xf)]);
+//@ harness name=tdes_eee3_blocks_dec prop=C04,C20 tier=quick bits=3200 stub=1 desc="TdesEee3 decrypt: multi-block / b2b calls equal per-block calls; arbitrary state (f uninterpreted)"
+g_blocks1!(tdes_eee3_blocks_dec, TdesEee3, 8, 2, generic::always, dec, stubs: [(crate::utils::f, stub_xf)]);
+//@ harness name=tdes_eee2_blocks_enc prop=C04,C20 tier=quick bits=2176 stub=1 desc="TdesEee2 encrypt: multi-block / b2b calls equal per-block calls; arbitrary state (f uninterpreted)"
+g_blocks1!(tdes_eee2_blocks_enc, TdesEee2, 8, 2, generic::always, enc, stubs: [(crate::utils::f, stub_xf)]);
+//@ harness name=tdes_eee2_blocks_dec prop=C04,C20 tier=quick bits=2176 stub=1 desc="TdesEee2 decrypt: multi-block / b2b calls equal per-block calls; arbitrary state (f uninterpreted)"
+g_blocks1!(tdes_eee2_blocks_dec, TdesEee2, 8, 2, generic::always, dec, stubs: [(crate::utils::f, stub_xf)]);
